@@ -562,4 +562,45 @@ def run(rep, ctx):
     cvn = one(VP + "::CleanUpValueNodes")
     t2.check(len(calls(cvn, name="CleanUpAndRealloc")) == 1 and any(n["k"] == "CXXForRangeStmt" for n in cvn.walk()), "cleanup-all-nodes", short_loc(cvn.loc),
              "CleanUpValueNodes visits every registered node")
+    # ---- S1: which vectors of the postsolved solution are reported ----------------------------------------------------
+    s1 = rep.rule("C04.S1", "GUARD", "FlatBackend::GetSolution reports the postsolved primal vector iff the solver returned primal values and the "
+                  "postsolved dual vector iff it returned duals", floor=2)
+    Fb = Facts(export_many([dict(unit="solvers/visitor/visitorbackend.cc", fn=[r"mp::FlatBackend::GetSolution"], repo=repo)]))
+    gs = [g for g in Fb.funcs if g.qn == "mp::FlatBackend::GetSolution" and not g.is_dependent() and g.cfg is not None]
+    if not gs:
+        raise AnalysisBroken("C04.S1: FlatBackend::GetSolution not instantiated in the visitor backend")
+    g = gs[0]
+    src = {}          # declId of a local holding the solver's answer -> "primal" / "dual"
+    out = {}          # declId of a local holding a postsolved vector -> "primal" / "dual"
+    for v in g.walk():
+        if v["k"] == "VarDecl" and kids(v):
+            t_ = render(kids(v)[0]).replace(" ", "")
+            if "PostsolveSolution" in t_:
+                continue
+            if t_.endswith("PrimalSolution()"):
+                src[v["declId"]] = "primal"
+            elif t_.endswith("DualSolution()"):
+                src[v["declId"]] = "dual"
+            elif "GetVarValues()" in t_:
+                out[v["declId"]] = "primal"
+            elif "GetConValues()" in t_:
+                out[v["declId"]] = "dual"
+    for which in ("primal", "dual"):
+        outs = [d for d, w in out.items() if w == which]
+        srcs = [d for d, w in src.items() if w == which]
+        clears = [c for c in g.walk() if c["k"] == "CXXMemberCallExpr" and (c.get("callee") or "").split("::")[-1] == "clear" and
+                  strip(call_object(c)).get("declId") in outs]
+        ok = len(outs) == 1 and len(srcs) == 1 and len(clears) == 1
+        why = "%d postsolved / %d solver / %d clear()" % (len(outs), len(srcs), len(clears))
+        if ok:
+            fa = sorted(g.cfg.facts_at(clears[0]), key=lambda x_: str(x_))
+            ok = len(fa) == 1 and fa[0][1] is True
+            why = "the %s vector is cleared under %d condition(s)" % (which, len(fa))
+            if ok:
+                cn = strip(g.nodes[fa[0][0]])
+                subj = strip(call_object(cn)) if cn["k"] == "CXXMemberCallExpr" and (cn.get("callee") or "").split("::")[-1] in ("empty", "Empty") else None
+                ok = subj is not None and subj.get("declId") == srcs[0]
+                why = "the postsolved %s vector is dropped when `%s` holds, not when the solver returned no %s values" % (which, render(cn), which)
+        s1.check(ok, "reported-iff-returned|%s" % which, short_loc(g.loc), "the postsolved %s vector is dropped exactly when the solver returned none" % which,
+                 "%s: values the solver returned do not reach the original items (or zeros are reported as values)" % why)
     return rep
